@@ -438,6 +438,8 @@ def _main(ctx, drv):
     if skipped:
         ctx.notes.append(f'{skipped} cases skipped (refusal or order that '
                          f'cannot be produced in that mode)')
+    if ctx.violations:
+        return          # the coverage expectations below assume a sane tree
     ctx.require(total >= (500 if quick else 6000),
                 f'only {total} tree cases were replayed')
     ctx.require(nscripts >= (500 if quick else 6000),
